@@ -22,7 +22,10 @@ PROPS = {
         "partial": [],
     },
     "C02": {"theorems": TIE_KMER + TIE_LETTERS, "partial": []},
-    "C03": {"theorems": TIE_LETTERS, "partial": []},
+    "C03": {"theorems": [("KtVerif.Props.C03", "KT." + t) for t in [
+        "mem_canonList", "canonList_sorted", "canon_min_mem", "minMerVec_eq_canonList", "posKmer_eq_canonList",
+        "kcount_eq", "posMap_size", "posMap_rank", "posMap_noncanon", "posMap_lt_kcount", "kcount_formula",
+        "header_eq_spec", "decodeSpec_lex_mono"]] + TIE_LETTERS, "partial": []},
     "C09": {"theorems": TIE_MIN, "partial": []},
     "C18": {"theorems": TIE_KMIN + TIE_MIN, "partial": []},
 }
